@@ -212,6 +212,7 @@ import sys as _sys
 
 _PLUG = _os.path.join(env.VERIF, "plugins")
 RECORDER = _os.path.join(_PLUG, "recorder_rule.py")
+RECORDER_FIX = _os.path.join(_PLUG, "recorder_fix_rule.py")
 
 
 def recorder():
@@ -577,3 +578,153 @@ class C18Harness(DocMixin):
 
 HARNESSES["c18kernel"] = C18Kernel
 HARNESSES["c18"] = C18Harness
+
+
+class C18Concrete:
+    """argv-shaped outcome categories that do not depend on a document: one path each,
+    executed through the same driver so that they appear in the evidence; the deciding
+    symbolic parts of C18 are the kernel and the document/fault scenarios."""
+
+    def __init__(self, params):
+        self.p = params
+        app.the_vfs()
+
+    def variables(self):
+        return []
+
+    def body(self, v):
+        pre = ["--return-code-scheme", "minimal"] if self.p.get("minimal") else []
+        files = [("/vfs/bad.json", "{ not json"), ("/vfs/cfg.json", '{"plugins": {"md013": {"line_length": "x"}}}'), (F, "# ok\n")]
+        return app.run_main(pre + list(self.p["argv"]), files)
+
+    def judge(self, obs, v):
+        if isinstance(obs, Raised):
+            return [{"kind": "harness-exception", "detail": obs.describe()}]
+        return scan_props.c18(obs.code, obs.err, obs.fails, obs.fixed, bool(self.p.get("minimal")), forced_category=self.p["category"])
+
+    def digest(self, obs, rv):
+        return "raised" if isinstance(obs, Raised) else f"{self.p['category']}:{obs.code}"
+
+
+HARNESSES["c18concrete"] = C18Concrete
+
+
+class ParserFault:
+    """raise inside the parser at its j-th invocation (wraps the block pass; the exception is
+    turned into BadTokenizationError by the parser's own handler)"""
+
+    count = 0
+    at = None
+    fired = False
+    installed = False
+
+    @classmethod
+    def install(cls):
+        if cls.installed:
+            return
+        cls.installed = True
+        from pymarkdown.general.tokenized_markdown import TokenizedMarkdown
+
+        name = "_TokenizedMarkdown__parse_blocks_pass"
+        orig = getattr(TokenizedMarkdown, name)
+
+        def wrapped(self, *a, **k):
+            n = ParserFault.count
+            ParserFault.count = n + 1
+            if ParserFault.at is not None and ParserFault.at == n:
+                ParserFault.fired = True
+                raise RuntimeError("injected parser fault")
+            return orig(self, *a, **k)
+
+        setattr(TokenizedMarkdown, name, wrapped)
+
+    @classmethod
+    def reset(cls, at=None):
+        cls.count = 0
+        cls.at = at
+        cls.fired = False
+
+
+class C15Harness(DocMixin):
+    """params: scenario plugin-fault|parser-fault|undecodable|crash, mode scan|fix,
+    cont (bool), which (for undecodable: 'a'|'b'), skeleton/holes = document A."""
+
+    OTHER = "x  \n\n\n# y"
+
+    def __init__(self, params):
+        self._init_doc(params)
+        self.sc = params["scenario"]
+        self.mode = params.get("mode", "scan")
+        self.cont = bool(params.get("cont"))
+        self.base = ["--add-plugin", RECORDER_FIX if params.get("fixrule") else RECORDER]
+        self.argv = self.base + (["--continue-on-error"] if self.cont else []) + [self.mode, A, B]
+        app.the_vfs()
+        self.R = recorder()
+        ParserFault.install()
+
+    def variables(self):
+        v = DocMixin.variables(self)
+        if self.sc in ("plugin-fault", "parser-fault", "crash"):
+            v = v + [("k", "int")]
+        return v
+
+    def body(self, v):
+        d = self.doc(v)
+        if d is None:
+            return SKIP
+        k = v.get("k")
+        if k is not None and not (0 <= k <= 80):
+            return SKIP
+        originals = {A: d, B: self.OTHER}
+        # reference runs without any fault
+        self.R.reset()
+        ParserFault.reset()
+        fixed_alone = {}
+        other_alone = None
+        if self.mode == "fix":
+            for p in (A, B):
+                o = app.run_main(self.base + ["fix", p], [(p, originals[p])])
+                fixed_alone[p] = scan_props.dict_of(o.files).get(p)
+        if self.cont:
+            oo = app.run_main(self.base + [self.mode, B], [(B, self.OTHER)])
+            other_alone = [t[1:] for t in oo.fail_tuples(with_file=True)]
+        self.R.reset(fault_at=k if self.sc == "plugin-fault" else None)
+        ParserFault.reset(at=k if self.sc == "parser-fault" else None)
+        files = [(A, d), (B, self.OTHER)]
+        if self.sc == "undecodable":
+            bad = A if self.p.get("which", "a") == "a" else B
+            o = app.run_main(self.argv, files, undecodable=[bad])
+            faulted, fault_file = True, bad
+        elif self.sc == "crash":
+            o = app.run_main(self.argv, files, crash_at=k)
+            return ("crash", o, o.code == "crash", originals, fixed_alone)
+        else:
+            o = app.run_main(self.argv, files)
+            if self.sc == "plugin-fault":
+                faulted, fault_file = self.R.FAULTED, self.R.FAULT_FILE
+            else:
+                faulted, fault_file = ParserFault.fired, None
+        self.R.reset()
+        ParserFault.reset()
+        return ("fault", o, faulted, fault_file, originals, fixed_alone, other_alone)
+
+    def judge(self, obs, v):
+        if isinstance(obs, Raised):
+            return [{"kind": "harness-exception", "detail": obs.describe()}]
+        if obs[0] == "crash":
+            _, o, crashed, originals, fixed_alone = obs
+            return scan_props.c15_crash(o.files, crashed, [A, B], originals, fixed_alone)
+        _, o, faulted, fault_file, originals, fixed_alone, other_alone = obs
+        other = B if fault_file != B else A
+        return scan_props.c15_fault(o, [A, B], faulted, fault_file, self.cont, self.mode, originals, fixed_alone,
+                                    other_alone if other == B else None, other)
+
+    def digest(self, obs, rv):
+        if isinstance(obs, Raised):
+            return "raised:" + obs.root_type + "@" + obs.site
+        with NoTracing():
+            o = obs[1]
+            return f"{self.sc}:{obs[2]}:{o.code}:{len(o.fails)}:{rv.get('k')}"
+
+
+HARNESSES["c15"] = C15Harness
